@@ -294,6 +294,9 @@ type taskManager struct {
 	opts       []Option
 	needAll    bool
 
+	// lineage: the task managers of the runs this run was started from (outermost first) and, last, t itself
+	lineage []*taskManager
+
 	mu   sync.Mutex
 	l    *list.List
 	done chan *task
@@ -406,22 +409,85 @@ func (t *taskManager) waitOne() (*task, bool) {
 	}
 	if sr, ok := ta.output.(streamReader); ok && ta.err == nil {
 		// a node that fails while it streams reports the failure as an error item: give it the node's
-		// path, as a failure at call time gets it from the run loop. An item that already went through
-		// this for another node of the same run (a node forwarding the items of its input) keeps the
-		// path of the node where it arose.
+		// path, as a failure at call time gets it from the run loop.
 		nodeKey := ta.nodeKey
 		ta.output = sr.withErrWrapper(func(err error) error {
-			if ie, ok := err.(*internalError); ok && ie.streamOrigin == t {
-				return err
-			}
-			err = wrapGraphNodeError(nodeKey, err)
-			if ie, ok := err.(*internalError); ok {
-				ie.streamOrigin = t
-			}
-			return err
+			return t.nodeError(nodeKey, err, true)
 		})
 	}
 	return ta, true
+}
+
+type runLineageKey struct{}
+
+// enterRun records t as the innermost run of ctx: the runs started from inside its nodes (nested graphs,
+// runnables called by a Lambda or a tool) see it as an ancestor.
+func (t *taskManager) enterRun(ctx context.Context) context.Context {
+	parents, _ := ctx.Value(runLineageKey{}).([]*taskManager)
+	t.lineage = append(append(make([]*taskManager, 0, len(parents)+1), parents...), t)
+	return context.WithValue(ctx, runLineageKey{}, t.lineage)
+}
+
+// nodeError gives err, the failure of node nodeKey - returned by its call, or (item) delivered as an error
+// item of its output stream - the node path it is reported with.
+//
+// An error item that a node of this run or of an enclosing run put on its stream names that node already.
+// A node that only hands it on (forwards the items of its input, returns what it read from its input, fails
+// because the framework could not concatenate its input) is not where the failure arose: inside the run the
+// item came from, the path stays the one of the node that produced it; inside a nested run (the item came in
+// through the input of the nested graph) there is no path to add at all, the error passes as it is.
+func (t *taskManager) nodeError(nodeKey string, err error, item bool) error {
+	if isInterruptError(err) {
+		return err
+	}
+	if it := findStreamItem(err, t.lineage); it != nil {
+		if it.streamOrigin != any(t) || err == error(it) {
+			return err
+		}
+		ne := &internalError{
+			typ:       it.typ,
+			nodePath:  NodePath{path: append([]string(nil), it.nodePath.path...)},
+			origError: err,
+		}
+		if item {
+			ne.streamOrigin = t
+		}
+		return ne
+	}
+	err = wrapGraphNodeError(nodeKey, err)
+	if ie, ok := err.(*internalError); ok {
+		ie.streamOrigin = nil
+		if item {
+			ie.streamOrigin = t
+		}
+	}
+	return err
+}
+
+// findStreamItem looks through the whole chain of err (all branches of joined errors) for an error item
+// that got its node path from one of runs.
+func findStreamItem(err error, runs []*taskManager) *internalError {
+	if err == nil {
+		return nil
+	}
+	if ie, ok := err.(*internalError); ok && ie.streamOrigin != nil {
+		for _, r := range runs {
+			if ie.streamOrigin == any(r) {
+				return ie
+			}
+		}
+	}
+	switch x := err.(type) {
+	case interface{ Unwrap() error }:
+		return findStreamItem(x.Unwrap(), runs)
+	case interface{ Unwrap() []error }:
+		for _, e := range x.Unwrap() {
+			if it := findStreamItem(e, runs); it != nil {
+				return it
+			}
+		}
+	}
+	return nil
 }
 
 func (t *taskManager) waitAll() ([]*task, error) {
